@@ -89,7 +89,7 @@ def macro_expected(case: dict[str, Any]):
     for i in range(3):
         p = PNAMES[i]
         if i >= n:
-            vals.append(f"{p}=")  # not a parameter: undefined inside the macro (unless passed as excess kwarg -> still not a variable)
+            vals.append(f"{p}=GP{i}")  # not a parameter: the body sees the global of that name (excess keyword arguments only go to kwargs)
             continue
         if p in bound:
             vals.append(f"{p}={bound[p]}")
@@ -152,7 +152,7 @@ def judge(ctx: core.Ctx, case: dict[str, Any]) -> None:
     if case["kind"] == "macro":
         src = macro_source(case)
         exp = macro_expected(case)
-        data = {"g": "GLOBAL"}
+        data = {"g": "GLOBAL", "p0": "GP0", "p1": "GP1", "p2": "GP2", "args": "GARGS", "kwargs": "GKW"}
         if exp is None:
             ctx.unspecified("duplicate-keyword")
             o = drv.parse_and_render(env(), src, data)
@@ -203,9 +203,9 @@ def gen_with(rng, depth: int = 0) -> list:
         elif r < 0.6:
             ops.append(["assign", rng.choice(["x", "y", "w"]), rng.choice(["L1", "L2", "L3"])])
         elif depth < 3:
-            bound = rng.sample(["x", "y", "w", "g"], rng.randint(1, 2))
-            free = [n for n in names if n not in bound]
-            args = {k: (["lit", rng.choice(["W1", "W2", "W3"])] if rng.random() < 0.6 else ["var", rng.choice(free)]) for k in bound}
+            bound = rng.sample(["x", "y", "w", "g"], rng.randint(1, 3))
+            # a value may name a variable that the same tag binds: it is still evaluated in the enclosing scope
+            args = {k: (["lit", rng.choice(["W1", "W2", "W3"])] if rng.random() < 0.6 else ["var", rng.choice(names)]) for k in bound}
             ops.append(["with", args, gen_with(rng, depth + 1) + [["out", bound[0]]]])
     ops.append(["out", "x"])
     return ops
